@@ -271,7 +271,7 @@ def ref_graph(text, ty):
 
 
 def apriori_class(text):
-    """input classes of the two recorded defects, decided on the text alone"""
+    """input classes of the two former defects D43 / D44 (fixed in 3609e15), decided on the text alone"""
     depth = best = 0
     for c in text:
         if c == "[":
@@ -380,9 +380,7 @@ def build(suite, info):
                     pass
                 return "OK U"
             return nx_parse_answer(text, u) if suite == "gml_p" else read_answer(text, ty, u)
-        cls = apriori_class(text) or "gml:" + info.get("kind", "")
-        if unm:
-            cls += ":U"
+        cls = apriori_class(text) or ("gml:" + info.get("kind", "") + (":U" if unm else ""))
         return Case(suite, r, impl, read_oracle(text, ty, u) if suite == "gml_r" else None, cls=cls,
                     nontrivial=any(c.isdigit() for c in text), info=info)
     raise ValueError("unknown suite " + suite)
@@ -620,7 +618,7 @@ def tok_mutate(rng, text):
 
 
 CORPUS = [
-    # (ty, text, kind) — the two recorded defects first
+    # (ty, text, kind) — the former defects D43 (AttributeError) and D44 (RecursionError) first: ValueError since 3609e15
     ("simple", "graph 5", "defect"), ("simple", 'graph "x"', "defect"), ("simple", "graph [ node 1 ]", "defect"),
     ("simple", 'graph [ node "a" ]', "defect"), ("simple", "graph [ node [ id 1 ] edge 3 ]", "defect"),
     ("digraph", "graph [ directed 1 node [ id 1 ] node 3 ]", "defect"), ("bipartite", "graph abc", "defect"),
